@@ -655,6 +655,7 @@ recv:
 				done := make(chan struct{})
 				go func() {
 					w.doAppend(i, 1)
+					w.observe(i) // the appended entry is checked at the next observation of its replica
 					close(done)
 				}()
 				select {
